@@ -97,6 +97,69 @@ func slowAgent(r *ev.Run) {
 	}
 }
 
+// longLived: one handler instance serves request after request (a handler kept across requests). The fortieth request
+// asks for what the first one asked for: the configured validity, the configured slot, a fresh key, one principal; and
+// the agent lifetime of what it adds is not shorter than that validity.
+func longLived(r *ev.Run) {
+	for ci, validity := range []uint64{1, 3600, 86400} {
+		c := r.Case("long-lived-handler", ci)
+		if c == nil {
+			continue
+		}
+		rec := map[string]any{"configured_validity": validity, "requests": 40}
+		r.Eval(1)
+		r.Guard(c, "long-lived handler", rec, func() {
+			kd, _ := gsrig.NewKeyDir()
+			defer kd.Remove()
+			user := gen.Pool()[1]
+			kd.Write("alice.pub", gsrig.AuthorizedLine(user.Pub, ""))
+			gc, _, err := gsrig.GensignConfig(gsrig.Conf{PubKeyDir: kd.Path, Identifiers: map[string]string{"default": "slot-d"}, ValiditySec: validity})
+			if err != nil {
+				r.Inconclusive(err.Error())
+				return
+			}
+			ag := wire.New()
+			defer ag.Close()
+			ag.Keyring.Add(agent.AddedKey{PrivateKey: user.Priv})
+			rig, err := gsrig.NewRig(ag, gc)
+			if err != nil {
+				r.Inconclusive(err.Error())
+				return
+			}
+			defer rig.Close()
+			seen := map[string]int{}
+			for n := 0; n < 40; n++ {
+				ag.ResetLog()
+				signer := &gsrig.Signer{Agent: ag}
+				runErr, escaped := gsrig.Run(gsrig.Param(gsrig.ParamSpec{LogName: "alice", ReqUser: "u", ReqHost: "h", ClientIP: "1.2.3.4", TransID: fmt.Sprintf("%010d", n), Policy: "NONS"}), []gensign.Handler{rig.Handler}, signer)
+				if escaped != "" || runErr != nil || len(signer.Calls) != 1 {
+					r.Violation(c, "request-refused-on-a-long-lived-handler", fmt.Sprintf("request %d: err=%v escaped=%q signer calls=%d", n, runErr, escaped, len(signer.Calls)), rec)
+					return
+				}
+				q := signer.Calls[0].Req
+				if q.Validity != validity || q.GetKeyMeta().GetIdentifier() != "slot-d" || len(q.Principals) != 1 || q.Principals[0] != "alice" {
+					r.Violation(c, "csr-field:drifts-on-a-long-lived-handler", fmt.Sprintf("request %d on one handler instance: validity %d (configured %d), slot %q, principals %v", n, q.Validity, validity, q.GetKeyMeta().GetIdentifier(), q.Principals), rec)
+					return
+				}
+				if prev, dup := seen[q.PublicKey]; dup {
+					r.Violation(c, "csr-field:public-key-reused", fmt.Sprintf("requests %d and %d on one handler instance certify the same key", prev, n), rec)
+					return
+				}
+				seen[q.PublicKey] = n
+				adds, _ := ag.Rec.Snapshot()
+				for _, a := range adds {
+					if a.LifetimeSecs == 0 || uint64(a.LifetimeSecs) < q.Validity {
+						r.Violation(c, "lifetime-shorter-than-requested-validity:long-lived-handler", fmt.Sprintf("request %d: validity %d s requested, agent lifetime %d s", n, q.Validity, a.LifetimeSecs), rec)
+						return
+					}
+				}
+			}
+			r.Count("requests served by long-lived handler instances, each like the first", 40)
+			r.Nontrivial(fmt.Sprintf("long-lived:%d", validity))
+		})
+	}
+}
+
 func main() {
 	ev.MainIsolated("C02", "exploration", 40*time.Minute, func(r *ev.Run) {
 		r.Rule("seeded requests through the real handler (NewHandler from JSON configuration) and gensign.Run with an honest forwarded agent and a recording signer: login name / client user / host / transaction id from a hostile alphabet (quotes, backslashes, NUL, newlines, braces, multi-byte UTF-8, up to 1 KiB), IPv4/IPv6 literals, requested CA key algorithm 0..5 and out of range, validity in {1, 59, 3600, 43200, 2^31, 10 years, default}, identifier maps with 0..5 entries keyed by algorithm name in random case or by decimal number. Each CSR is compared field by field with an oracle built from the inputs; the KeyID is decoded with encoding/json into a map (exact key set and JSON types) and with keyid.Unmarshal; the certified public key must be new (pairwise distinct over the whole run, different from the user's key) and be the public half of the private key this run added to the agent. distinct_nontrivial = distinct requests that produced a CSR and passed every field comparison + distinct refused (algorithm, identifier map) combinations")
@@ -104,7 +167,7 @@ func main() {
 		gen.Pool()
 		var swg sync.WaitGroup
 		swg.Add(1)
-		go func() { defer swg.Done(); slowAgent(r) }()
+		go func() { defer swg.Done(); slowAgent(r); longLived(r) }()
 		defer swg.Wait()
 		n := r.Pick(600, 20000)
 		var wg sync.WaitGroup
